@@ -25,6 +25,8 @@ func TestPropMuxAgreesWithMatches(t *testing.T) {
 		n := rapid.IntRange(1, 5).Draw(t, "npat")
 		var full []string
 		var marker []string
+		mounts := map[string]*res.Mux{}
+		nested, maxDepth := 0, 0
 		for i := 0; i < n; i++ {
 			p := genValidPattern().Draw(t, "pattern")
 			if rapid.IntRange(0, 2).Draw(t, "short") > 0 {
@@ -34,8 +36,35 @@ func TestPropMuxAgreesWithMatches(t *testing.T) {
 				}
 			}
 			mk := "m" + strconv.Itoa(i)
-			if panics(func() { m.AddHandler(p, res.Handler{Call: map[string]res.CallHandler{mk: nil}}) }) {
+			// leading literal tokens may be walked through mounted sub-muxes (existing ones or
+			// new ones, several levels deep); the handler is added to the mux reached
+			cur, rest, key := m, refmux.Tokens(p), ""
+			for len(rest) > 1 && rest[0] != "" && !strings.ContainsAny(rest[0][:1], "$*>") && refmux.ValidName(rest[0]) {
+				k := key + "." + rest[0]
+				sub := mounts[k]
+				if rapid.IntRange(0, 2).Draw(t, "viaMount") == 0 {
+					break
+				}
+				if sub == nil {
+					sub = res.NewMux("")
+					tok := rest[0]
+					if panics(func() { cur.Mount(tok, sub) }) {
+						break // something is registered there already
+					}
+					mounts[k] = sub
+					nested++
+				}
+				cur, rest, key = sub, rest[1:], k
+			}
+			sp := strings.Join(rest, ".")
+			if panics(func() { cur.AddHandler(sp, res.Handler{Call: map[string]res.CallHandler{mk: nil}}) }) {
 				continue // conflicting registration (same structure, other placeholder names)
+			}
+			if cur != m {
+				depth := strings.Count(key, ".")
+				if depth > maxDepth {
+					maxDepth = depth
+				}
 			}
 			fp := p
 			if path != "" {
@@ -82,7 +111,11 @@ func TestPropMuxAgreesWithMatches(t *testing.T) {
 					multi++
 				}
 			}
-			ev.Case(multi >= 2 || (path != "" && !strings.HasPrefix(name, path+".")), evid.Hash("mux", path, fmt.Sprint(full), name), "mux-vs-matches")
+			labels := []string{"mux-vs-matches"}
+			if maxDepth > 0 {
+				labels = append(labels, "mount-depth-"+strconv.Itoa(maxDepth))
+			}
+			ev.Case(multi >= 2 || maxDepth >= 2 || (path != "" && !strings.HasPrefix(name, path+".")), evid.Hash("mux", path, fmt.Sprint(full), name, maxDepth), labels...)
 			if (mh != nil) != any {
 				t.Fatalf("mux path %q patterns %q: GetHandler(%q) found=%v, but Pattern.Matches says a registered pattern matches=%v", path, full, name, mh != nil, any)
 			}
@@ -95,6 +128,25 @@ func TestPropMuxAgreesWithMatches(t *testing.T) {
 				}
 				if !ok {
 					t.Fatalf("mux path %q patterns %q: GetHandler(%q) returned a handler whose pattern does not match the name", path, full, name)
+				}
+				// value extraction: the routed parameters are the values the pattern extracts
+				for i, fp := range full {
+					if _, has := mh.Handler.Call[marker[i]]; !has || dupParam(fp) {
+						continue
+					}
+					want, vok := res.Pattern(fp).Values(name)
+					if !vok {
+						continue
+					}
+					same := len(want) == len(mh.Params)
+					for k, v := range want {
+						if mh.Params[k] != v {
+							same = false
+						}
+					}
+					if !same {
+						t.Fatalf("mux path %q patterns %q (%d mounted sub-muxes, deepest %d): GetHandler(%q) gives parameters %v, Pattern(%q).Values gives %v", path, full, nested, maxDepth, name, mh.Params, fp, want)
+					}
 				}
 			}
 		}
